@@ -119,7 +119,8 @@ Proof.
   1,2: apply EXT_bind; [apply EXT_ttype|]; intros ty; destruct ty; try apply EXT_ret;
        apply (EXT_map _ (fun id => (_, Some id))); first [apply (EXT_i16 PBinary) | apply (EXT_i16 PBinaryLE)].
   (* compact *)
-  intros s h s' t H. binv H. rewrite (EXT_byte _ _ _ t E). cbn [bind].
+  intros s h s' t H. change (clear_pfield (ext s t)) with (ext (clear_pfield s) t).
+  binv H. rewrite (EXT_byte _ _ _ t E). cbn [bind].
   set (lo := x mod 16) in *. set (delta := x / 16) in *.
   assert (Hty : forall (o : res (ttype * rst)) ty s1,
              (if lo =? ctype_code CBooleanTrue
